@@ -85,6 +85,17 @@ CHECKS += [
      "note": "PARTIAL: the Go scheduler and map iteration inside the generators cannot be modelled; they are observed (repeated runs), not proved. The model treats them as an arbitrary permutation erased by the proved mechanisms. No axioms."},
 ]
 
+CHECKS += [
+    {"id": "C35",
+     "technique": "Coq proof (writer = frames; reader round trip by induction over all write-operation lists; chunking irrelevance by simulation; CBC layer over an abstract block cipher; CRC-32 burst detection by GF(2) linearity) + T-const + extracted-model/Go correspondence through an in-package overlay test with real PacketConn objects, real handshake, recorded cipher streams",
+     "text": "18 closed statements: for every list of packets and flushes, every start sequence number (handshake phase and 2^32 wrap included), both CRC polynomials, with or without the encrypted layout, the reader returns exactly the packets written, for every chunking of the stream, and through CBC encryption for every chunking of the cipher stream. Any change within 4 consecutive bytes of the seqNum/type/body/CRC of a frame (in particular any single byte) makes the reader fail at that frame after delivering the earlier packets unchanged; CRC-32 detects every 32-bit burst. ~2450 ops per quick run incl. real HandshakeClient/Server for protocol versions 0-3 with and without AES, every offset of small streams corrupted, captured streams re-read by the model.",
+     "note": "PARTIAL w.r.t. the property text: corruption of the length word and of encrypted bytes is detected only with probability 1-2^-32 (checked by the oracle, not proved). AES, key derivation, nonce/handshake message contents, deadlines and the memcached magic are not modelled; the cipher is abstract (D (E x) = x on 16-byte blocks, a Section premise). No axioms."},
+    {"id": "C40",
+     "technique": "Coq proof (field-by-field codec round trip of both extras for all flag words; wrapper loop of ParseInvokeReq/parseResponseExtra stepped over every wrapper combination) + T-const (TLTag methods, size limits, error code) + correspondence with the real preparePacket/ParseInvokeReq/prepareResponseBody/parseResponseExtra through an in-package overlay test",
+     "text": "11 closed statements: the request (qid, actor, extra, body format, body) and the response (qid, extra masked by the request flags, body or error code + description) are parsed back to what was put in, for every extra within wire ranges and both body formats. ~3100 ops per quick run: all single bits and pairs of field bits, random subsets, zero/empty values under set bits, negative ints, NaN payloads, long strings, maps, end-to-end through one HandlerContext, malformed inputs.",
+     "note": "Premise: the body's first tag is not a wrapper or error tag and the body has >= 4 bytes (TL1 responses, all requests). Only the *rpc.Error branch is modelled for errors; error code 0 becomes -4000 by design. The flag-bit assignment is transcribed by hand and exercised bit by bit. No axioms."},
+]
+
 _claimed = {c["id"] for c in CHECKS}
 _reasons = {
     "C32": "PHP serializers: no PHP/KPHP interpreter exists in the sandbox and nothing can be installed, so generated PHP cannot be executed; neither a correspondence check nor a failing-input search can exist (DESIGN.md section 8)",
